@@ -104,7 +104,7 @@ fn c14_try_consume_contract() {
     assert!(p.b.window_start == if p.rolled { p.now } else { p.win_start }, "C14/bucket/window_rolls_only_after_window_elapsed");
 }
 
-// @verif property=C14 class=complete fns=Bucket::try_consume uses=any_pre tier=thorough panic=violation replay=none
+// @verif property=C14 class=complete fns=Bucket::try_consume uses=any_pre tier=parked panic=violation replay=none
 #[kani::proof]
 #[kani::stub(std::time::Instant::now, stub_instant_now)]
 #[kani::unwind(4)]
